@@ -91,9 +91,18 @@ template <typename V, typename K> inline std::string cont(const V& v, K&& k) {
 inline const ivec& arg(const Stage& st, size_t i) { if (i >= st.args.size()) throw bad_args("stage"); return st.args[i]; }
 inline long long arg1(const Stage& st, size_t i) { const auto& v = arg(st, i); if (v.size() != 1) throw bad_args("stage"); return v[0]; }
 
+template <unsigned MASK, typename AP, typename A, typename K> inline std::string apply_stage_array(const A& a, const Stage& st, K&& k);
 // one stage applied to `a`; `k` receives the (unwrapped) view.  MASK selects the kinds instantiated here.
 template <unsigned MASK, typename AP, typename A, typename K>
 inline std::string apply_stage(const A& a, const Stage& st, K&& k) {
+    const std::string& kd = st.kind;
+    // a statically rank-0 operand (e.g. the sum of a fixed rank-1 array) is a number: no view is stacked on it
+    if constexpr (nm::meta::is_num_v<A>) return "scalar-result";
+    else if constexpr (nm::is_none_v<decltype(nm::shape(a))>) return "scalar-result";
+    else return apply_stage_array<MASK, AP>(a, st, k);
+}
+template <unsigned MASK, typename AP, typename A, typename K>
+inline std::string apply_stage_array(const A& a, const Stage& st, K&& k) {
     const std::string& kd = st.kind;
     if constexpr (MASK & K_TRANSPOSE) if (kd == "transpose") return cont(view::transpose(a, AP::template list<int>(arg(st, 0))), k);
     if constexpr (MASK & K_RESHAPE)   if (kd == "reshape")   return cont(view::reshape(a, AP::template list<int>(arg(st, 0))), k);
